@@ -343,7 +343,8 @@ def frag(rng):
         return f"{rng.choice(['', 'In ', 'As '])}{ref_name(rng)} at {num(rng)}"
     if r < 0.75:
         # a multi-word name written with different white space than in its full citation
-        n = rng.choice(["Bell Atlantic Corp.", "Theatre Enterprises", "Mar. Overseas Corp.", "De la Cruz", "Acme Corp."])
+        multi = [x for x in _recent if " " in x]
+        n = rng.choice(multi) if multi else rng.choice(["Bell Atlantic Corp.", "Theatre Enterprises", "Mar. Overseas Corp.", "De la Cruz", "Acme Corp."])
         return f"{n.replace(' ', rng.choice(['  ', chr(10), ' ' + chr(10), chr(9)]))} at {num(rng)}"
     if r < 0.77:
         # a reference whose pin-cite digits are also the volume of a following citation
@@ -509,3 +510,18 @@ def markup_doc(rng):
 
 MARKUP_STEPS = [["html", "all_whitespace"], ["html", "inline_whitespace"], ["html"],
                 ["html", "all_whitespace", "underscores"]]
+
+
+FILLER_WORDS = ["the", "court", "held", "that", "parallel", "conduct", "alone", "does", "not", "suffice", "under",
+                "this", "rule", "and", "because", "each", "party", "agreed", "below", "we", "review", "only",
+                "for", "plain", "error", "on", "appeal", "from", "a", "final", "order", "of", "district"]
+
+
+def filler(rng, nchars):
+    """Ordinary prose (no special tokens) of about nchars characters."""
+    out, n = [], 0
+    while n < nchars:
+        w = rng.choice(FILLER_WORDS)
+        out.append(w)
+        n += len(w) + 1
+    return " ".join(out)
